@@ -249,7 +249,7 @@ def run(ctx):
                        "third-party stix2patterns validator decides STIX pattern validity"]
     per_doc = 25 if ctx.quick else 400
     per_doc_box = [per_doc]
-    ndocs = ctx.n(290, 600)
+    ndocs = ctx.n(240, 600)
     accepted = [0]
 
     def body(args):
@@ -285,6 +285,8 @@ def run(ctx):
             pshape = ".".join("[i]" if isinstance(x, int) else str(x) for x in c["path"])
             fp = core.fingerprint([ver, doc["type"], pshape, c["kind"], route])
             ctx.note(case, bool(in_errs), ["kind:" + c["kind"].split("=")[0].split(":")[0], "route:" + route, "input-flagged" if in_errs else "input-still-valid"], fp=fp)
+            if c["kind"].startswith(("id:", "ref:", "vocab:", "bound:")):
+                ctx.keep(case, (ver, doc["type"], c["kind"].split(":")[0]), per_group=1, limit=2000)
             ctx.handle(case, fails)
 
     # every type of both versions gets its share: the type is drawn first, uniformly
@@ -339,6 +341,10 @@ def run(ctx):
 
     strat2 = st.tuples(base_doc(), st.lists(st.integers(0, 10 ** 6), min_size=2, max_size=4), st.sampled_from(["parse", "constructor"]))
     core.run_given(ctx, strat2, body_multi, ctx.n(800, 6000), label="c02-multi")
+    # a verdict must not depend on what the process accepted or refused before (memo of validated identifiers, tables filled by the
+    # first spec version ...): kept cases again in fresh processes, in four orders
+    bat = ctx.battery()
+    core.order_probe(ctx, cases=bat[::max(1, len(bat) // 240)][:240])
 
 
 def replay(case):
